@@ -299,7 +299,7 @@ def run(report, p):
         r5.check(uses_map, dh, c, "the exit-12 decision does not depend on the recorded failures")
         for t in tests:
             for x in ast.walk(t.ast):
-                if isinstance(x, ast.Name) and isinstance(x.ctx, ast.Load) and x.id not in ("len", "set", "list", "sorted", "any", "all", "sum"):
+                if isinstance(x, ast.Name) and isinstance(x.ctx, ast.Load) and x.id not in ("len", "set", "list", "sorted", "any", "all", "sum", "bool", "frozenset"):
                     okname = "fail" in x.id
                     for o in pr.origins(x, dh):
                         if any(is_call(s2, "builtin:sorted") or (s2[0] == "op" and s2[1].startswith("collect")) for s2 in subterms(o)):
